@@ -82,6 +82,7 @@ func runC13(c *Ctx) {
 	p1 := &explore.Product{Name: "three frozen writers x buffer sizes + layout + view", Dims: []int{len(corpus)}, Deadline: c.Budget(40, 600), Execs: &execs,
 		Run: func(idx []int) (string, *ev.Fail) {
 			src := corpus[idx[0]].Build()
+			defer runtime.KeepAlive(src)
 			fz, f := frozenWriters(src.B, &execs)
 			if f != nil {
 				return "", f
@@ -135,6 +136,7 @@ func runC13(c *Ctx) {
 	p2 := &explore.Product{Name: "WriteFrozenTo x writer failure offsets", Dims: []int{len(corpus)}, Deadline: c.Budget(60, 900), Execs: &wexecs,
 		Run: func(idx []int) (string, *ev.Fail) {
 			src := corpus[idx[0]].Build()
+			defer runtime.KeepAlive(src)
 			fz, err := src.B.Freeze()
 			if err != nil {
 				return "", fail("Freeze", "error", "%v", err)
@@ -184,6 +186,7 @@ func runC13(c *Ctx) {
 	seen := map[string]bool{}
 	for _, r := range corpus {
 		b := r.Build()
+		defer runtime.KeepAlive(b)
 		k := extract.Kinds(roaring.VerifViewOf(b.B))
 		if len(k) > 5 {
 			k = k[:5]
@@ -202,6 +205,7 @@ func runC13(c *Ctx) {
 	p3 := &explore.Product{Name: "frozen view x mutation sequences <= 2 with GC interleaved", Dims: []int{len(sub)}, Deadline: c.Budget(110, 1500), Execs: &sexecs,
 		Run: func(idx []int) (string, *ev.Fail) {
 			src := sub[idx[0]].Build()
+			defer runtime.KeepAlive(src)
 			if src.M.IsEmpty() {
 				return "empty", nil
 			}
